@@ -477,7 +477,11 @@ impl CertificateParams {
 			let bit_string = self.key_usages.iter().fold(0u16, |bit_string, key_usage| {
 				bit_string | key_usage.to_u16()
 			});
-			writer.write_bitvec_bytes(&bit_string.to_be_bytes(), KEY_USAGE_BITS);
+			// DER (X.690 section 11.2.2) requires a named-bit list to be encoded without
+			// trailing zero bits, so the length depends on the last usage that is set.
+			let bits = KEY_USAGE_BITS.min(16 - bit_string.trailing_zeros() as usize);
+			let bytes = bit_string.to_be_bytes();
+			writer.write_bitvec_bytes(&bytes[..(bits + 7) / 8], bits);
 		});
 	}
 
